@@ -1,6 +1,7 @@
 use std::fs::{File, hard_link, read_dir, remove_file, rename};
 use std::ops::Bound;
 use std::path::PathBuf;
+use std::sync::atomic::{AtomicBool, Ordering};
 use std::sync::{Arc, Condvar, Mutex, MutexGuard};
 
 use mani::{Edit, Manifest};
@@ -90,6 +91,8 @@ pub struct KeyValueStore {
     wait_list: WaitList<()>,
     cnd_needs_memtable_flush: Condvar,
     cnd_memtable_rolled_over: Condvar,
+    // Set by the first error on the write or flush path; see poison().
+    poisoned: AtomicBool,
 }
 
 impl KeyValueStore {
@@ -138,6 +141,7 @@ impl KeyValueStore {
             wait_list,
             cnd_needs_memtable_flush,
             cnd_memtable_rolled_over,
+            poisoned: AtomicBool::new(false),
         })
     }
 
@@ -339,8 +343,13 @@ impl KeyValueStore {
     }
 
     fn poison<T, E: Into<SError>>(&self, res: Result<T, E>) -> Result<T, SError> {
-        // TODO(rescrv): Actually poison here.
-        res.map_err(|e| e.into())
+        // After an error the log may hold a batch the memtable never saw, or the tree may lag the
+        // manifest.  Nothing written on top of that could be trusted to survive a restart, so no
+        // further write gets acknowledged until the store is reopened.
+        res.map_err(|e| {
+            self.poisoned.store(true, Ordering::Relaxed);
+            e.into()
+        })
     }
 
     pub fn put(&self, key: &[u8], value: &[u8]) -> Result<(), SError> {
@@ -373,6 +382,11 @@ impl KeyValueStore {
     }
 
     pub fn write(&self, mut batch: WriteBatch) -> Result<(), SError> {
+        if self.poisoned.load(Ordering::Relaxed) {
+            return Err(logic_error(
+                "an earlier error poisoned the store; reopen it before writing",
+            ));
+        }
         let (mut wait_guard, memtable, log, seq_no) = {
             let mut state = self.state.lock().unwrap();
             let wait_guard = self.wait_list.link(());
